@@ -143,8 +143,10 @@ def run_refine(items, w=2, monitors=True, max_level=6000, max_alloc=256, timeout
                         consts={'Monitors': 'TRUE' if monitors else 'FALSE', 'MaxLevel': max_level, 'MaxAlloc': max_alloc})
         r = tlc.run(d, 'Batch', timeout=timeout, workers=workers, heap=heap)
         completed = 'Model checking completed. No error has been found' in r.out
-        if (r.errors and not r.prints) or (not r.prints and not r.timed_out and not completed):
+        oom = any('out of memory' in e for e in r.errors)
+        if ((r.errors and not r.prints) or (not r.prints and not r.timed_out and not completed)) and not oom:
             raise common.Machinery('TLC failed: %s\n%s' % (r.errors[:3], r.out[-2500:]))
+        # (out of memory: the verdicts printed so far stand, the caller runs the rest again in smaller batches)
         # no verdict line at all although TLC completed: every case of the batch ran out of fuel (result None)
         by = {}
         for p in r.prints:
